@@ -64,7 +64,7 @@ def parseItem (s : String) : Option ItemInfo :=
         (vs.mapM fun v => (splitOnChar v '.').mapM hexToString?).map some
       else none)
     some { id := id, cls := cls, useInsteadOf := uio == "1", file := file, name := name.toList,
-           autoKind := autoAllowlistedKind auto, parentIsModule := pmod == "1", unnamedEnumVariants := enumVs }
+           autoKind := autoAllowlistedKind auto, syntheticKind := syntheticTypeKind auto, parentIsModule := pmod == "1", unnamedEnumVariants := enumVs }
   | _ => none
 
 def parseEdge (s : String) : Option (Nat × Edge) :=
@@ -122,6 +122,7 @@ def handleReach (toks : List String) : String :=
   | none => "model-out-of-fuel"
   | some s => "allow=" ++ idsToString s.allowlisted.eraseDups ++ " codegen=" ++ idsToString s.codegen.eraseDups
       ++ " roots=" ++ toString (roots o items).length
+      ++ " synthetic-roots=" ++ toString ((items.filter fun it => it.enabled o && rootFilter o it && syntheticRoot o it).length)
 
 def handleRx (toks : List String) : String :=
   match toks with
